@@ -121,7 +121,11 @@ def mutate(obj, op, layout=1):
         return "project:" + out.split(":")[0] + ":" + (out.split(".", 1)[1] if "." in out else "")[:24]
     if isinstance(obj, Pattern):
         if op["s"] % 3 == 0:
-            n = obj.data[op["v"] % obj.lines][(op["v"] >> 8) % obj.tracks]
+            grid = obj.data  # (index by what the grid really holds: the harness must not trip over a corrupted pattern)
+            if not grid or not grid[op["v"] % len(grid)]:
+                return "pattern:cell:empty"
+            row = grid[op["v"] % len(grid)]
+            n = row[(op["v"] >> 8) % len(row)]
             n.vel = (op["v"] >> 16) % 130
             n.ctl = (op["v"] >> 24) & 0xFFFF
             return "pattern:cell"
@@ -464,6 +468,46 @@ def execute(case):
                 check_others(None, i, "load_check")
                 probes["later_load_checked"] = probes.get("later_load_checked", 0) + 1
                 log.append((i, "load_check", n, b))
+            elif k == "borrow_fail":
+                # actor A runs a bulk edit on its pattern whose generator hands over a LIVE note of actor B's
+                # pattern (as a copy-between-patterns script would) and then gives up: the edit is dropped, and
+                # nothing B holds may have changed - not even whom B's notes answer for
+                def first_pattern(o):
+                    if isinstance(o, Pattern):
+                        return o
+                    if isinstance(o, Project):
+                        return next((x for x in o.patterns if isinstance(x, Pattern)), None)
+                    return None
+
+                bi = op.get("b", 1) % len(actors)
+                pa, pb = first_pattern(a["obj"]), first_pattern(actors[bi]["obj"])
+                if pa is None or pb is None or pa is pb or bi == ai:
+                    log.append((i, "borrow_fail", "skip"))
+                    continue
+                a["mut"] += 1
+                at = op.get("at", 1) % max(1, pa.lines * pa.tracks - 1) + 1
+
+                class _GiveUp(Exception):
+                    pass
+
+                def gen(pattern, new):
+                    n_ = 0
+                    for line in range(pattern.lines):
+                        for track in range(pattern.tracks):
+                            if n_ >= at:
+                                raise _GiveUp()
+                            yield line, track, pb.data[line % pb.lines][track % pb.tracks]
+                            n_ += 1
+
+                try:
+                    pa.set_via_gen(gen)
+                    outcome = "completed"
+                except _GiveUp:
+                    outcome = "gave_up"
+                fired["failed_bulk_edit_with_borrowed_note"] = fired.get("failed_bulk_edit_with_borrowed_note", 0) + 1
+                a["snap"], a["bytes"] = obj_digest(a["obj"])
+                check_others(ai, i, "borrow_fail")
+                log.append((i, "borrow_fail", ai, bi, outcome))
             elif k == "scribble":
                 # an actor writes all over its own object graph IN PLACE (every list element, every field of
                 # every sample / envelope / mapping / MIDI map / note it can reach) and then lets go of it:
@@ -568,6 +612,8 @@ def generate(seed, i, tier="quick"):
         a = r.randrange(4)
         if x < 0.59:
             ops.append({"k": "mutate", "a": a, "s": r.randrange(100000), "v": r.getrandbits(62), "bop": builder.gen_op(r)})
+        elif x < 0.60 and focus_kind in ("pattern", "project"):
+            ops.append({"k": "borrow_fail", "a": a, "b": r.randrange(4), "at": r.randrange(64)})
         elif x < 0.62:
             ops.append({"k": "scribble", "a": a, "v": r.randrange(1000)})
             if r.random() < 0.5:
